@@ -265,6 +265,16 @@ pub fn jobs(tier: Tier) -> Vec<Job> {
             }
         }
     }
+    // re-submitting the stored genesis (10 in this deployment) or its neighbours, before and after it has passed
+    for block in [5u64, 9, 10, 11, 1000, GENESIS] {
+        for s in [0u64, 999_999_999] {
+            for g in [9u64, 10, 11] {
+                for d in [86_399u64, 86_400, 172_800] {
+                    pts.push(P18::Accept { block, sub_ns: s, genesis: g, duration: d });
+                }
+            }
+        }
+    }
     // transition system: every step sequence of length L over {+1s, +d-1, +d}
     let l = tier.pick(5usize, 7usize);
     for g in [1u64, GENESIS] {
